@@ -571,7 +571,8 @@ class Prop:
                 o = [0, ids(r[1])] if r[0] == 0 else r
                 cq = "unused"       # single nfa/tfa answers are rendered by their sweep
             elif kind == "nff":
-                r = call(lambda: nodes[p].find_first(*args, **kw))
+                fn = nodes[p].find if p % 2 else nodes[p].find_first        # `find` is the documented alias
+                r = call(lambda: fn(*args, **kw))
                 o = [0, onode(r[1])] if r[0] == 0 else r
                 cq = f"QNodeFindFirst {lid(nodes[p])} {c_oz(did_ix(st, dcalc(data)))} {c_oz(mi)} {c_oz(did_ix(st, did))}"
             elif kind == "tfa":
@@ -584,7 +585,8 @@ class Prop:
             else:
                 if node_id is not None:
                     kw["node_id"] = node_id
-                r = call(lambda: tree.find_first(*args, **kw))
+                fn = tree.find if (mi or 0) % 2 else tree.find_first
+                r = call(lambda: fn(*args, **kw))
                 o = [0, onode(r[1])] if r[0] == 0 else r
                 cq = f"QTreeFindFirst {c_oz(did_ix(st, dcalc(data)))} {c_oz(mi)} {c_oz(did_ix(st, did))} {c_oz(node_id)}"
             return o, "(" + cq + ")"
